@@ -1,0 +1,35 @@
+//go:build verif
+
+// Contracts for the deductive verifier in /verif (comment-only; compiled only with -tags verif).
+
+package scanner
+
+//@ func min
+//@ props C16
+//@ pure
+//@ ensures [the-smaller-of-the-two] (a < b ==> result == a) && (a >= b ==> result == b)
+
+// The range generator (the goroutine started by genRanges): the ranges it sends are non-empty, at
+// most one batch long, each starts where the previous one ended, the first starts at StartIndex
+// and no range reaches past the current end; when it stops because the range is exhausted the
+// cursor is exactly at the end.
+//@ func (*Fetcher).genRanges$1
+//@ props C16
+//@ arith int
+//@ site send#1 as snd
+//@ site updateSTH#1 as up
+//@ requires f != nil && f.opts != nil && f.client != nil && ctx != nil && batch >= 1
+//@ requires f.opts.StartIndex >= 0
+//@ loop 1 invariant f.opts != nil && f.opts == old(f.opts) && start >= old(f.opts.StartIndex) && end <= f.opts.EndIndex
+//@ at snd assert [range-starts-at-the-cursor-and-is-non-empty] snd.x.start == start && snd.x.start <= snd.x.end
+//@ at snd assert [range-within-one-batch-and-before-the-end] snd.x.end - snd.x.start + 1 <= batch && snd.x.end < end
+//@ loop 1 step-assert [cursor-moves-to-just-after-the-range-sent-or-stays] (snd.called ==> next(start) == snd.x.end + 1) && (!snd.called ==> next(start) == start)
+//@ at up assert [waits-for-a-bigger-tree-only-when-the-range-is-exhausted] start >= end && f.opts.Continuous
+
+//@ func (*Fetcher).updateSTH
+//@ props C16
+//@ arith int
+//@ requires f != nil && f.opts != nil && f.client != nil && ctx != nil
+//@ modifies f.sth, f.sthBackoff, f.opts.EndIndex
+//@ frame-trusted the retry closure assigns only f.sth and f.opts.EndIndex (verified as updateSTH$1)
+//@ ensures [success-means-a-strictly-bigger-tree] result == nil ==> f.opts.EndIndex > old(f.opts.EndIndex)
